@@ -14,7 +14,12 @@ pub fn main(tier: &str, seed: u64, n_override: Option<u64>) {
     for idx in 0..n {
         let mut r = random_robot(&mut rng, idx, false, None);
         if idx % 2 == 0 { r.p.dof = 5; }
-        let j = origin_joints(&mut rng, &r, PoseKind::Reachable);
+        let mut j = origin_joints(&mut rng, &r, PoseKind::Reachable);
+        // "non-singular" is the solver's own notion (the 0.01 degree band on J5): some cases sit just outside that band, others have the
+        // elbow within a few milliradians of stretched / folded (wrist centre micrometres inside the reach boundary)
+        let (mut wrist_m, mut elbow_m) = (0.02, 0.02);
+        if idx % 8 == 1 { let mut qm = r.to_model(&j); let e = 10f64.powf(rng.range(-3.6, -2.3)) * if rng.bool() { 1.0 } else { -1.0 }; qm[4] = if rng.below(4) == 0 { PI + e } else { e }; j = r.from_model(&qm); wrist_m = 2.4e-4; }
+        if idx % 8 == 5 { let mut qm = r.to_model(&j); let e = 10f64.powf(rng.range(-3.5, -2.0)) * if rng.bool() { 1.0 } else { -1.0 }; qm[2] = -f64::atan2(r.p.a2, r.p.c3) + if rng.below(4) == 0 { PI + e } else { e }; j = r.from_model(&qm); elbow_m = 3.0e-4; }
         let pose = pose_of(&r, &j);
         if idx % 3 == 0 { r.cons = Some(random_constraints(&mut rng, Some(&j))); }
         let k = r.solver();
@@ -33,7 +38,7 @@ pub fn main(tier: &str, seed: u64, n_override: Option<u64>) {
         // originating J1..J5 among the answers when non-singular and within limits
         let mut jq = j; jq[5] = want6;
         let decided = compliant_oracle(&r.cons, &jq);
-        if nonsingular(&r, &j) && decided == Some(true) {
+        if nonsingular_we(&r, &j, wrist_m, elbow_m) && decided == Some(true) {
             let found = sols.iter().any(|s| (0..5).all(|i| ang_diff(s[i], j[i]) < 1e-6));
             if !found && direct == "ok" { direct = "fail".into(); class = if sols.is_empty() && r.p.dof == 5 && entry < 2 { format!("C06.dof5_robot_returns_nothing_entry{}", entry) } else { format!("C06.origin_missing_entry{}", entry) }; }
         }
